@@ -161,6 +161,8 @@ func (c c15Case) build() (files map[string]string, mainFile string, access strin
 	use = append(use, "---@type "+typ, "local v = {}")
 	if c.wrap == 0 {
 		use = append(use, "v.extra = 1")
+		// a member assigned through the variable under the name of a field that the last class declares
+		use = append(use, "v."+c.fieldOf(c.classes[len(c.classes)-1])+" = 2")
 	}
 	use = append(use, "print(v)")
 	files = map[string]string{}
@@ -279,6 +281,11 @@ func c15Space(tier string) *core.Space {
 			_ = cyclic
 			// the alias cycle X->Y->X: the variable's type does not denote a class; only liveness is required
 			want := c.expected()
+			assignedField := ""
+			if c.wrap == 0 {
+				assignedField = c.fieldOf(c.classes[len(c.classes)-1])
+				want[assignedField] = true // assigned through the variable
+			}
 			if c.alias >= 3 {
 				want = map[string]bool{}
 			}
@@ -351,6 +358,9 @@ func c15Space(tier string) *core.Space {
 			// member go-to-definition (plain variable only: print(v.<field>))
 			if c.wrap == 0 && c.alias != 3 {
 				for f := range want {
+					if f == assignedField {
+						continue // its definition may be the assignment through the variable
+					}
 					buf2 := text + "print(v." + f + ")"
 					s.ChangeFull(mainFile, buf2)
 					locs, err := s.Definition(mainFile, nLines, len("print(v.")+1)
@@ -396,6 +406,9 @@ func c15Space(tier string) *core.Space {
 					}
 					want2 := c2.expected()
 					delete(want2, c.fieldOf(victim))
+					if assignedField != "" {
+						want2[assignedField] = true
+					}
 					vf := "class_" + strings.ToLower(victim) + ".lua"
 					os.Remove(filepath.Join(root, vf))
 					s.Watched([]drv.FileEvent{{Rel: vf, Type: 3}})
